@@ -43,6 +43,10 @@ func coreLocks(tier string) []RunSpec {
 	for k := 0; k < 4; k++ {
 		out = append(out, RunSpec{Profile: "core:wallet-helpers", Params: map[string]int{"helpers": 1, "k": k}})
 	}
+	// two SIG_ALL inputs under different conditions, each validly signed, outputs signed for the first
+	for k := 0; k < 4; k++ {
+		out = append(out, RunSpec{Profile: "core:sigall-mixed-conditions", Params: map[string]int{"mixedcond": 1, "flag": 1, "lt": 0, "wv": 3, "ov": 0, "k": k}})
+	}
 	// a co-signer key listed twice, threshold one above the distinct keys that sign
 	for n := 2; n <= 4; n++ {
 		out = append(out, RunSpec{Profile: "core:duplicate-key", Params: map[string]int{"dupkey": 1, "nsigs": n, "wv": 6, "flag": 0, "lt": 0}})
@@ -128,7 +132,7 @@ func (lr *lockRun) inputWitness(T *Tape, c *LockCfg, secret string, wv int) (str
 	// keys authorised before locktime, in order
 	var auth []int
 	if !c.HTLC {
-		auth = append(auth, 0)
+		auth = append(auth, c.LockKey)
 	}
 	if c.NSigs > 0 {
 		auth = append(auth, c.Pubkeys...)
@@ -215,7 +219,7 @@ func (lr *lockRun) inputWitness(T *Tape, c *LockCfg, secret string, wv int) (str
 		}
 	case 11:
 		label = "lock-key-only"
-		sigs = append(sigs, SignMsg(kr.Priv[0], msg, 0))
+		sigs = append(sigs, SignMsg(kr.Priv[c.LockKey], msg, 0))
 	}
 	w := map[string]any{}
 	if sigs != nil {
@@ -255,7 +259,7 @@ func (lr *lockRun) outputWitness(c *LockCfg, o *HOutput, idx, ov int) string {
 	}
 	var auth []int
 	if !c.HTLC {
-		auth = append(auth, 0)
+		auth = append(auth, c.LockKey)
 	}
 	if c.NSigs > 0 {
 		auth = append(auth, c.Pubkeys...)
@@ -308,12 +312,42 @@ func (lr *lockRun) step(rc *RunCtx, i int) {
 	c := lr.drawCfg(rc)
 	ks := W.ActiveKeyset(mint)
 	nLocked := 1 + T.Choose("lock.count", 2)
+	if rc.P("mixedcond", 0) == 1 {
+		nLocked = 2
+	}
 	src := m.pickProofs(mint, 2)
 	if src == nil || SumH(src) < uint64(nLocked)+2 {
 		m.StepFund()
 		return
 	}
+	// sometimes the second locked proof is under a *different* condition (other lock key / other co-signers,
+	// same n_sigs and flag): each input carries a witness valid for its own condition
+	var c2 *LockCfg
+	if nLocked == 2 && (T.Chance("lock.mixedcond", 1, 4) || rc.P("mixedcond", 0) == 1) {
+		cp := *c
+		c2 = &cp
+		if !lr.htlc {
+			c2.LockKey = 3
+			c2.Data = lr.kr.PubHex(3)
+		}
+		if len(c.Pubkeys) > 0 {
+			c2.Pubkeys = append([]int{}, c.Pubkeys...)
+			c2.Pubkeys[0] = 5
+		} else if lr.htlc {
+			c2 = nil
+		}
+	}
+	cfgOf := func(k int) *LockCfg {
+		if k == 1 && c2 != nil {
+			return c2
+		}
+		return c
+	}
 	rc.Op("lock " + c.String())
+	if c2 != nil {
+		rc.Op("second lock " + c2.String())
+		rc.S.Probe(lr.prop + "_mixed_conditions")
+	}
 	// 1. obtain locked proofs through a real swap
 	var locked []*HProof
 	var change []*HProof
@@ -328,7 +362,7 @@ func (lr *lockRun) step(rc *RunCtx, i int) {
 			if lockedAmt+a >= total {
 				a = 1
 			}
-			outs = append(outs, W.NewOutput(a, ks.ID, c.Secret(lr.kr)))
+			outs = append(outs, W.NewOutput(a, ks.ID, cfgOf(k).Secret(lr.kr)))
 			lockedAmt += a
 		}
 		if lockedAmt > total {
@@ -381,9 +415,12 @@ func (lr *lockRun) step(rc *RunCtx, i int) {
 		var label string
 		for k, lp := range locked {
 			cp := *lp
-			w, l := lr.inputWitness(T, c, lp.Secret, wv)
+			w, l := lr.inputWitness(T, cfgOf(k), lp.Secret, wv)
 			cp.Witness = w
 			label = l
+			if c2 != nil {
+				label += "+mixedcond"
+			}
 			if k == 0 {
 				ins = append(ins, plain[:min(pos, len(plain))]...)
 			}
